@@ -46,9 +46,10 @@ C04Verdict(e) ==
    ELSE Ok
 \* spec-encoded canonical bytes through the real decoder
 ExplainDec(e) ==
-   FirstBad(<< <<~e.obs.err, "C04: canonical encoding from the reference encoder was rejected">>,
-               <<PerNorm(e.obs.tree) = PerNorm(e.tree), "C04: decoded value differs from the value the reference encoder encoded">>,
-               <<~e.obs.reErr /\ e.obs.reBytes = e.bytes, "C04: re-encoding does not reproduce the reference bytes">> >>)
+   IF e.obs.err THEN No("C04: canonical encoding from the reference encoder was rejected")
+   ELSE IF PerNorm(e.obs.tree) # PerNorm(e.tree) THEN No("C04: decoded value differs from the value the reference encoder encoded")
+   ELSE IF e.obs.reErr \/ e.obs.reBytes # e.bytes THEN No("C04: re-encoding does not reproduce the reference bytes")
+   ELSE Ok
 Explain(e) == CASE e.ev = "Dec" -> ExplainDec(e)
                 [] OTHER -> No("no action of the specification matches this event")
 
